@@ -136,14 +136,6 @@ func MultiPolygon(box orb.Bound, mp orb.MultiPolygon, o orb.Orientation) orb.Mul
 	}
 
 	outers, closedOuters := clipRings(box, outerRings)
-	if len(outers) == 0 {
-		// nothing was clipped
-		if len(closedOuters) == 0 {
-			return nil // everything outside bound
-		}
-
-		return mp // everything inside bound
-	}
 
 	// inner rings
 	var innerRings []orb.Ring
@@ -157,6 +149,19 @@ func MultiPolygon(box orb.Bound, mp orb.MultiPolygon, o orb.Orientation) orb.Mul
 	}
 
 	inners, closedInners := clipRings(box, innerRings)
+
+	if len(outers) == 0 && len(inners) == 0 {
+		// nothing was clipped
+		if len(closedOuters) == 0 {
+			return nil // everything outside bound
+		}
+
+		if len(closedOuters) == len(outerRings) {
+			return mp // everything inside bound
+		}
+
+		// some polygons are inside and some outside, keep the inside ones below
+	}
 
 	// smart wrap everything that touches the edges
 	result := smartWrap(box, append(outers, inners...), o)
